@@ -49,6 +49,8 @@ impl Drop for Context {
                 self.channel_id
             ),
         }
+        #[cfg(aws_clock_bound_verif)]
+        crate::verif::fault::after_notify();
     }
 }
 
